@@ -68,6 +68,10 @@ def check_comment(case):
     both = Comment([c17.real(a), c17.real(b)])
     if str(both) != str(c):
         raise Fail('extend-then-render differs from render of the concatenation', 'extend')
+    # the same container object at several places of one comment text contributes every time
+    twice = [a, 'mid', a, [b, a]]
+    shared = Comment(c17.real(twice, share={}))
+    check_render(rendered_lines(str(shared)), c17.ref_lines(twice), 'comment with shared containers')
     # the comment embedded in a larger block (as the generators do) keeps one '//' per line
     from dznpy.text_gen import TextBlock
     emb = TextBlock([Comment(c17.real(a)), 'int code;'])
